@@ -6,7 +6,13 @@ def check(ctx):
                               ('TCPPacketGenerator', '__init__'), ('TCPPacketGenerator', 'run'),
                               ('TCPPacketGenerator', 'timeout_callback'), ('TCPPacketGenerator', 'put'),
                               ('TCPPacketGenerator', 'resend_packet'),
-                              ('Timer', '__init__'), ('Timer', 'run'), ('Timer', 'stop'), ('Timer', 'restart')])
+                              ('Timer', '__init__'), ('Timer', 'run'), ('Timer', 'stop'), ('Timer', 'restart'),
+                              ('CongestionControl', '__init__'), ('CongestionControl', 'timer_expired'),
+                              ('CongestionControl', 'dupack_over'), ('CongestionControl', 'consecutive_dupacks_received'),
+                              ('CongestionControl', 'more_dupacks_received'), ('TCPReno', 'ack_received'),
+                              ('TCPCubic', '__init__'), ('TCPCubic', 'cubic_reset'), ('TCPCubic', 'timer_expired'),
+                              ('TCPCubic', 'cubic_update'), ('TCPCubic', 'cubic_tcp_friendliness'),
+                              ('TCPCubic', 'ack_received')])
     elements.ack_depends_on_buffer_only(ctx, 'C16')
     elements.ack_offset_constant(ctx, 'C16')
     elements.timer_args_shape(ctx, 'C16')
